@@ -90,8 +90,8 @@ def r_types(ctx):
 
 def r1(ctx):
     facts = ctx.facts
-    rule = Rule("C20.R1", "the sender is single-use: set once at construction, taken on every path of respond, Drop sends only if it was still there",
-                floor=4, engine="A-who + A-dom")
+    rule = Rule("C20.R1", "the sender is single-use: set once at construction, taken on every path of respond, Drop sends if and only if it was still there",
+                floor=5, engine="A-who + A-dom")
     # who writes / reads the sender field
     touch = {}
     for p, b in sorted(facts.bodies.items()):
@@ -167,6 +167,14 @@ def r1(ctx):
     r = dr.reachable(0, removed_edges=some_edges)
     rule.check(bool(some_edges) and dsends and not any(x in r for x in dsends), "drop sends only past Some(self.sender.take())", "drop|guard",
                "Drop for TalkRequest sends a response even when respond already took the sender", loc=dr.loc(dr.line))
+    # ... and always then: once the sender was found, no path returns without sending (an unanswered request otherwise gets no response at all)
+    okk = bool(some_edges) and bool(dsends)
+    for sb, tgt in some_edges:
+        rr = dr.reachable(tgt, removed_blocks=dsends)
+        if any(x in rr for x in dr.return_blocks()):
+            okk = False
+    rule.check(okk, "drop: every path past Some(self.sender.take()) sends the empty response", "drop|return-without-send",
+               "Drop for TalkRequest can find the sender still present (the request was never answered) and return without sending the empty response", loc=dr.loc(dr.line))
     return rule
 
 
@@ -269,7 +277,21 @@ def r3(ctx):
                 okk = any(callee_matches(t, r"Result::<.*>::map_err", r"Result::map_err$") for _, t in b.calls())
                 clos = [cb for pth, cb in facts.bodies.items() if pth.startswith(b.path + "::{closure#")]
                 cc = any(any(s.k == "a" and s.rv.k == "agg" and s.rv.j.get("variant") == "ChannelClosed" for blk in cb.blocks for s in blk.stmts) for cb in clos)
-                rule.check(okk and cc, "[%s] a closed channel is mapped to Err(ResponseError::ChannelClosed)" % prof, "respond|closed-channel",
+                mapped = okk and cc
+                if not mapped:
+                    # the same mapping written as `match sender.send(..) { Ok(()) => Ok(()), Err(_) => Err(ChannelClosed) }`
+                    g = Guards(b, p, facts)
+                    cc_blocks = [blk.idx for blk in b.blocks if blk.idx in b.live_blocks() for s in blk.stmts
+                                 if s.k == "a" and s.rv.k == "agg" and s.rv.j.get("variant") == "ChannelClosed"]
+                    for bi, t, e in g.switches():
+                        if e[0] == "discr" and any(x[0] == "call" and re.search(r"UnboundedSender::send$|Sender::send$", short(x[1])) for x in walk(e[1])):
+                            names, _ = g.variant_names(bi)
+                            err_t = [tb for v, tb in t.vals if names.get(v) == "Err"] or ([t.otherwise] if any(names.get(v) == "Ok" for v, _ in t.vals) else [])
+                            ok_t = [s_ for s_ in t.succs() if s_ not in err_t]
+                            if err_t and cc_blocks and all(not any(x in b.reachable(e_, removed_blocks=cc_blocks) for x in b.return_blocks()) for e_ in err_t) and \
+                                    not any(c in b.reachable(o_) for o_ in ok_t for c in cc_blocks):
+                                mapped = True
+                rule.check(mapped, "[%s] a closed channel is mapped to Err(ResponseError::ChannelClosed)" % prof, "respond|closed-channel",
                            "TalkRequest::respond does not map a closed channel to ResponseError::ChannelClosed", loc=b.loc(b.line))
     return rule
 
